@@ -277,8 +277,38 @@ def run(ctx, anchors=None):
     used = bool(pc) and any(a.get("k") == "if" for a in drv.ancestors(pc[0]))
     ctx.inst(used, "R11.4", "malformed-list-rejected", drv.loc(pc[0]) if pc else drv.loc(), "btcdeb exits when the pair list is rejected")
 
+    # ---- R11.4b a pair list that ends in `sig:` (a signature without its key) is malformed too: every accepting path of the
+    # parser either leaves the "have a signature" flag cleared by its last iteration or has decided it false after the loop
+    from .. import symx as _sx11
+    pv = fb.fn("Instance::parse_pretend_valid_expr")
+    X11 = _sx11.Explorer(prog, inline=lambda fn, n: False, transparent=lambda n: True)
+    try:
+        outs11 = X11.explore(pv, this=("a", "this"), limit=4000)
+    except _sx11.Unsupported as e:
+        raise AnalysisBroken("R11.4b: %s" % e)
+    flag_names = [d["n"] for n in pv.nodes() if n["k"] == "decl" for d in n["decls"] if (d.get("ty") or "") == "bool"]
+    if len(flag_names) != 1:
+        raise AnalysisBroken("R11.4b: expected one boolean state flag in parse_pretend_valid_expr, found %s" % flag_names)
+    acc = [o for o in outs11 if o.ret == _sx11.C(1)]
+    dangling = []
+    for o in acc:
+        g = _sx11.Explorer.var(o, flag_names[0])
+        if g == _sx11.C(0) or any(t == g and not v for (t, v) in o.conds):
+            continue
+        if isinstance(g, tuple) and g[:2] == ("ap", "loopvar") and g[3] == _sx11.C(0):
+            continue
+        if isinstance(g, tuple) and g[:2] == ("ap", "loopvar") and isinstance(g[3], tuple) and g[3][0] == "prev" and \
+                any(isinstance(t, tuple) and t[0] == "prev" and t == g[3] and not v for (t, v) in o.conds):
+            continue
+        dangling.append(_sx11.show(g)[:60])
+    ctx.site(len(acc))
+    ctx.inst(bool(acc) and not dangling, "R11.4", "dangling-signature-rejected", pv.loc(),
+             "every accepting path of the pair-list parser ends with the signature flag cleared",
+             "the pair-list parser can return true while it still holds a signature without a key (flag = %s): `--pretend-valid=sig1:` and `sig1:pub1,sig2:` are accepted and the dangling signature is silently dropped" % (dangling[0] if dangling else ""))
+
 
 MUTANTS = [
+    dict(name="dangling-signature-accepted", file="instance.cpp", find="    if (got_sig) {\n        fprintf(stderr, \"parse error (signature without a public key)", replace="    if (false) {\n        fprintf(stderr, \"parse error (signature without a public key)", expect=["R11.4:dangling-signature-rejected"]),
     dict(name="multisig-mock-keyed-on-signature-lookup", file="script/interpreter.cpp",
          find="                        if (pretend_valid_pubkeys.count(vchPubKey)) {\n                            fOk = pretend_valid_map.count(vchSig) && pretend_valid_map.at(vchSig) == vchPubKey;",
          replace="                        auto mock = pretend_valid_map.find(vchSig);\n                        if (mock != pretend_valid_map.end()) {\n                            fOk = mock->second == vchPubKey;", expect=["R11.2:mock-branch-keyed-on-checked-key", "R11.1:read"]),
